@@ -1,35 +1,39 @@
-(* C18/Refuted.v -- full statements the faithful model (= the real code) violates: machine-checked witnesses.
+(* C18/Refuted.v -- regression facts about a defect that has been repaired.
 
-   lz4-length-prefix-unchecked: LZ4Compressor.Decode hands the block decoder a buffer of the declared size
-   and returns however many bytes were produced.  With the block decoder the LZ4 format defines
-   (Spec.lz4_block_decode_into: decode the block, fail only when the output does not fit) a body whose
-   prefix declares 10 bytes but whose block holds the single literal 'a' is accepted as "a", although the
-   declared length says it is corrupt; Cassandra's decoder (exact length) rejects the same bytes.
-   The harness reproduces exactly this input on the real LZ4Compressor (known finding). *)
+   lz4-length-prefix-unchecked (fixed): before the fix LZ4Compressor.Decode handed the block decoder a buffer
+   of the declared size and returned however many bytes were produced ([lz4_decode_prefix] below is that
+   pre-fix function).  With the block decoder the LZ4 format defines (Spec.lz4_block_decode_into: decode the
+   block, fail only when the output does not fit) a body whose prefix declares 10 bytes but whose block holds
+   the single literal 'a' was accepted as "a".  The repaired Decode (Model.lz4_decode) rejects it, as
+   Cassandra's decoder does; the unconditional theorem is Props.C18_lz4_declared_length, and the harness
+   replays exactly these bytes against the real LZ4Compressor on every run. *)
 From GocqlV Require Import Lib.Base Gen.Consts C18.Model C18.Spec.
 
 Definition witness_body : bytes := [0; 0; 0; 10; 16; 97].
 
-Theorem lz4_declared_length_refuted :
+(* Decode as it was before the fix *)
+Definition lz4_decode_prefix (rawdec : bytes -> Z -> option bytes) (data : bytes) : option bytes :=
+  if (length data <? 4)%nat then None
+  else
+    let n := be32_val data in
+    if n =? 0 then Some []
+    else rawdec (skipn 4 data) n.
+
+Theorem prefix_lz4_declared_length_refuted :
   exists rawdec data out,
-    lz4_decode rawdec data = Some out /\ be (firstn 4 data) <> size out.
+    lz4_decode_prefix rawdec data = Some out /\ be (firstn 4 data) <> size out.
 Proof.
   exists lz4_block_decode_into, witness_body, [97].
   split; [vm_compute; reflexivity | vm_compute; discriminate].
 Qed.
 
-(* the same bytes as a response frame: readFrame returns the one-byte body without error *)
-Theorem corrupt_lz4_body_accepted_refuted :
-  exists c r b, c_name c = name_lz4 /\
-    read_frame (new_framer (Some c) 4) K.flagCompress (blen r) r = Ok b /\ be (firstn 4 r) <> size b.
-Proof.
-  exists (lz4_codec (fun _ => None) lz4_block_decode_into), witness_body, [97].
-  split; [reflexivity|]. split; [vm_compute; reflexivity | vm_compute; discriminate].
-Qed.
-
-(* Cassandra's own decoder rejects the witness *)
-Example cassandra_rejects_witness : cass_lz4_decompress lz4_block_decode_exact witness_body = None.
-Proof. vm_compute. reflexivity. Qed.
+(* regression: the repaired Decode rejects the witness, directly and as a compressed response body *)
+Example witness_rejected_after_fix :
+  lz4_decode lz4_block_decode_into witness_body = None
+  /\ read_frame (new_framer (Some (lz4_codec (fun _ => None) lz4_block_decode_into)) 4) K.flagCompress
+       (blen witness_body) witness_body = Err EDecode
+  /\ cass_lz4_decompress lz4_block_decode_exact witness_body = None.
+Proof. repeat split; vm_compute; reflexivity. Qed.
 
 (* the uint32 conversion of the prefix: a 2^32-byte body would be written with prefix 0 and read back as
    empty.  Outside the property's quantifier (frames are limited to 256 MB); shows that the size hypothesis
